@@ -179,6 +179,12 @@ class ManagedRoles:
         # the timeout wrapper: the one local coroutine of the managed module that calls Runtime::timeout
         tw = [b for b in prog.bodies.values() if (b.path.startswith('deadpool::managed::') or b.path.startswith('<deadpool::managed::') or (' as deadpool::managed::' in b.path.split('>::')[0] and str(b.file).startswith('src/'))) and b.is_coroutine
               and any(blk.term.kind == 'call' and 'deadpool_runtime::Runtime::timeout' in blk.term.callee_names() for blk in b.blocks)]
+        if len(tw) > 1:
+            # several coroutines set a timer (a slot wait written out next to the generic wrapper): the wrapper is the one that is
+            # told *which* timeout it enforces (a TimeoutType parameter)
+            tw2 = [b for b in tw if any('TimeoutType' in str(i_) for i_ in ((prog.bodies.get(b.j.get('parent') or '') or b).j.get('inputs') or []))]
+            if len(tw2) == 1:
+                tw = tw2
         self.TIMEOUT_WRAPPER = tw[0] if len(tw) == 1 else None
         self.TIMEOUT_WRAPPER_FN = strip_generics(tw[0].j.get('parent', '')) if len(tw) == 1 else None
         # entry points (public API names)
@@ -213,11 +219,23 @@ class ManagedRoles:
         return b
 
     def _helpers(self, root):
+        """the root and the *outermost* local functions below it whose call tree touches the semaphore or the size counter: a
+        small helper they share with other callers (`retire_slot(&mut slots)`) is part of each of them - it is inlined - and
+        not a role of its own"""
         reg = self.prog.region([root.path])
+        def touches(b):
+            return any(self.is_sem_call(b, blk.term) or self.field_writes(b, self.SLOTS, self.SIZE) for blk in b.blocks)
+        own = {p for p in reg if self.prog.bodies[p].kind == 'Closure' and (self.prog.bodies[p].j.get('parent') or '') == root.path}
+        sub = {}
+        for p in reg:
+            if p != root.path and p not in own:
+                sub[p] = self.prog.region([p])
+        T = {p for p, rg in sub.items() if any(touches(self.prog.bodies[q]) for q in rg)}
+        outer = {p for p in T if not any(q != p and p in sub[q] for q in T)}
         out = []
         for p in sorted(reg):
             b = self.prog.bodies[p]
-            if p == root.path or any(self.is_sem_call(b, blk.term) or self.field_writes(b, self.SLOTS, self.SIZE) for blk in b.blocks):
+            if p == root.path or p in outer or (p in own and touches(b)):
                 out.append(b)
         return out
 
